@@ -16,6 +16,13 @@ func genStructs(o *hx.Out, rng *hx.Rng, n, nmut int) {
 		for i := 0; i < n; i++ {
 			d := cxs.GenValue(rng, e, 0, i%3 == 2)
 			o.Put(cxs.RunStruct(e, d, "gen"))
+			if i == 0 { // hostile length prefixes / varints at every top-level position (nested readers with wrapped ends)
+				for k, m := range cxs.VarintAttacks(d) {
+					if k%2 == 0 {
+						o.Put(cxs.RunStruct(e, m, "varint"))
+					}
+				}
+			}
 			for j := 0; j < nmut; j++ {
 				o.Put(cxs.RunStruct(e, cx.Mutate(rng, d, 1+rng.Intn(2)), "mut"))
 			}
